@@ -42,6 +42,8 @@ AssignVerdict(before, after, n, raised, r0, r1, c0, c1, block) ==
        (IF raised THEN (IF after = before THEN "ok" ELSE "ErrorChangedTheArray")
         ELSE IF ~IsPrefixOf(ShowGrid(before, n), ShowGrid(after, n)) THEN "EmptyRegionChangedCells"
         ELSE IF \E r \in Len(before) + 1..Len(after) : Show(after[r], n) # [c \in 1..n |-> BlankC] THEN "GrowsWithBlankRows"
+        \* a region with rows but no columns that reaches past the last row still makes the array grow to it
+        ELSE IF r1 - r0 > 0 /\ Len(after) # Max2(Len(before), r1) THEN "GrowsExactlyToRegion"
         ELSE "ok")
   ELSE IF MustFail(before, n, r0, r1, c0, c1, block) THEN
        (IF ~raised THEN "BadBlockMustRaise" ELSE IF ShowGrid(after, n) # ShowGrid(before, n) \/ Len(after) # Len(before) THEN "ErrorChangedTheArray" ELSE "ok")
